@@ -14,7 +14,7 @@ A membership (query i, atom j) is classified
     IN         distance clearly <= radius  (d <= r - band, or d == 0 non-periodic)
     OUT        distance clearly >  radius  (d >  r + band)
     undecided  otherwise (accepted either way, counted)
-with band = 4*eps32*(|p|+|q|+r) (DESIGN.md section 5) in the non-periodic case.
+with band = 4*eps32*(|p|+|q|+r) (DESIGN.md section 5) + 2*sqrt(tiny32) in the non-periodic case.
 """
 
 import itertools
@@ -23,6 +23,10 @@ import numpy as np
 
 EPS32 = float(np.finfo(np.float32).eps)          # 2**-23
 F32MAX = float(np.finfo(np.float32).max)
+# The implementation compares *squared* float32 distances: below the smallest normal
+# float32 (1.18e-38) a square loses its relative precision / flushes to zero, so
+# distances and radii below sqrt(tiny32) = 1.08e-19 cannot be resolved by the format.
+ABS32 = 2.0 * float(np.sqrt(np.finfo(np.float32).tiny))
 
 SHIFTS2 = np.array(list(itertools.product(range(-2, 3), repeat=3)), dtype=np.float64)   # 125 images
 IN27 = (np.abs(SHIFTS2).max(axis=1) <= 1)                                                # the 27 nearest
@@ -150,14 +154,14 @@ class World:
                 mag = qn[:, None] + self.Pn[None, :] + R[:, None]
                 if mode == "cells":
                     mag = mag + self.Pmax            # the cell origin (min coordinate) enters the index arithmetic
-                band = 4 * EPS32 * mag
+                band = 4 * EPS32 * mag + ABS32
                 IN = (D <= R[:, None] - band) | (D == 0)
                 skew = np.zeros_like(IN)
             else:
                 mag = self.kappa * (qn[:, None] + self.Pn[None, :]) + 2 * self.boxsum + R[:, None]
                 if mode == "cells":
                     mag = mag + 2 * self.boxsum
-                band = 8 * EPS32 * mag
+                band = 8 * EPS32 * mag + ABS32
                 in125 = D <= R[:, None] - band
                 in27 = D27 <= R[:, None] - band
                 IN = in125 & in27
